@@ -54,7 +54,7 @@ pub fn run() {
         ("empty", vec![]),
     ];
     for (name, data) in calls {
-        let r = tx(&mut d, Op::Call { pk: pk.clone(), target: Target::Addr(tool.clone()), data: Some(hist::hx(&data)), enc: Enc::Hex, ctx: ctx(idx), iid: format!("iid-{}", name), len: 100000, txid: format!("0x{:064x}", 0x7000 + idx) });
+        let r = tx(&mut d, Op::Call { pk: pk.clone(), target: Target::Addr(tool.clone()), data: Some(hist::hx(&data)), enc: Enc::Hex, ctx: ctx(idx), iid: format!("iid-{}", name), len: 100000, txid: crate::hist::bh((0x7000 + idx) as u64) });
         let rc = hist::receipts_in(&r);
         let st = rc.first().map(|x| format!("status={} gas={} logs={}", x["status"], x["gasUsed"], x["logs"].as_array().map(|a| a.len()).unwrap_or(0))).unwrap_or_else(|| r.short());
         let txh = rc.first().and_then(|x| x["transactionHash"].as_str()).unwrap_or("").to_string();
